@@ -21,9 +21,16 @@ import (
 //   C16 acct sha256 <n> <i> <seed> <kind> <a>     -> verdict after one tampering            (Lean: symbolic hash)
 //   C16 accd sha256 <i|x> P:<leaf> S:<h>:<l,l,..> R:<seg>:<bytes> ... -> per-op status, Prove/Root, equal-to-flat flag
 //   C16 vx <n> <i> <pattern> <seed> <kind> <a>    -> Open status + Verify verdict (Poseidon2) (Lean: symbolic hash)
+//   C16 vxi <n> <p> <pattern> <seed> <j,j,..>     -> Open(p) status + one Verify verdict per index j (leaf / proof / root of position p)
+//   C16 accti sha256 <n> <i> <seed> <j:m,j:m,..>  -> one VerifyProof verdict per (index j, numLeaves m) with the proof of (n, i)
+// accd history tokens: P:<leaf> Push, S:<h>:<leaves> PushSubTree(h, root of the cached tree over the leaves), R:<seg>:<bytes>
+// ReadAll, I:<idx> SetIndex (ok / err:notempty), and the OBSERVATION calls Or = Root() (answer: root) and Op = Prove() +
+// VerifyProof (answer: root numLeaves proofSet verdict); every observation is written out when it is made.
 
 // Capacity independence (values, not capacities, determine every answer): every slice handed to the library is, depending
-// on a mode derived from the op line (0 plain make/append, 1 cap == len, 2 cap = next power of two, 3 larger), a sub-slice
+// on a mode derived from the op line (0 plain make/append, 1 cap == len, 2 cap = next power of two, 3 larger, 4 FLAT: all
+// slices of the line are cut one after the other, without gaps, out of ONE buffer and keep the whole rest of the buffer as
+// spare capacity - what a decoder of a serialised proof / a cache of sub-tree roots produces), a sub-slice
 // of a larger backing array whose bytes before the slice and between len and cap are poisoned with non-zero data; after
 // the op the backing arrays are compared with their snapshots: the library must neither read (answer changes: caught by
 // the model / by the reference build) nor write (`wrote-caller-memory`) outside [0,len). Vortex: BuildMerkleTree on the
@@ -100,6 +107,9 @@ type c16Hdr struct {
 
 type c16Pool struct {
 	mode   int
+	flat   []byte // mode 4: the buffer being cut (also registered in bufs/snaps)
+	flatI  int    // its position in bufs
+	off    int
 	bufs   [][]byte
 	snaps  [][]byte
 	outers [][][]byte // full-capacity views of the outer proof-set slices
@@ -112,7 +122,7 @@ func c16Mode(a []string) int {
 		h.Write([]byte(x))
 		h.Write([]byte{' '})
 	}
-	return int(h.Sum32()>>3) % 4
+	return int(h.Sum32()>>3) % 5
 }
 
 func c16Pow2(n int) int {
@@ -142,6 +152,27 @@ func (p *c16Pool) sub(d []byte) []byte {
 		return d
 	}
 	n := len(d)
+	if p.mode == 4 {
+		if p.flat == nil || p.off+n > len(p.flat)-8 {
+			sz := 1 << 14
+			if sz < 2*n+64 {
+				sz = 2*n + 64
+			}
+			p.flat = make([]byte, sz)
+			for i := range p.flat {
+				p.flat[i] = byte(0x5b^(i*13)) | 1
+			}
+			p.off = 5
+			p.flatI = len(p.bufs)
+			p.bufs = append(p.bufs, p.flat)
+			p.snaps = append(p.snaps, append([]byte{}, p.flat...))
+		}
+		copy(p.flat[p.off:], d)
+		copy(p.snaps[p.flatI][p.off:], d)
+		r := p.flat[p.off : p.off+n : len(p.flat)]
+		p.off += n
+		return r
+	}
 	c := c16SpareCap(p.mode, n)
 	buf := make([]byte, 3+c+5)
 	for i := range buf {
@@ -304,7 +335,8 @@ func execC16Tamper(h hash.Hash, n, i, seed uint64, kind string, a uint64, p *c16
 func execC16Decomp(h hash.Hash, idx string, ops []string, p *c16Pool) string {
 	t := merkletree.New(h)
 	flatT := merkletree.New(h)
-	if idx != "x" {
+	proofTree := idx != "x"
+	if proofTree {
 		t.SetIndex(c16U(idx))
 		flatT.SetIndex(c16U(idx))
 	}
@@ -312,6 +344,26 @@ func execC16Decomp(h hash.Hash, idx string, ops []string, p *c16Pool) string {
 	for _, op := range ops {
 		f := strings.Split(op, ":")
 		switch {
+		case f[0] == "Or" && len(f) == 1: // observation: Root()
+			outs = append(outs, c16RootHex(t.Root()))
+		case f[0] == "Op" && len(f) == 1: // observation: Prove() and VerifyProof of what it returned
+			if !proofTree {
+				outs = append(outs, "bad-op") // (Prove panics by contract without SetIndex)
+				continue
+			}
+			outs = append(outs, c16Prove(h, t, p))
+		case f[0] == "I" && len(f) == 2:
+			i := c16U(f[1])
+			if err := t.SetIndex(i); err != nil {
+				outs = append(outs, "err:notempty")
+				continue
+			}
+			if flatT.SetIndex(i) != nil {
+				outs = append(outs, "desync")
+				continue
+			}
+			proofTree = true
+			outs = append(outs, "ok")
 		case f[0] == "P" && len(f) == 2:
 			d := parseBytes(f[1])
 			t.Push(p.sub(d))
@@ -368,12 +420,39 @@ func execC16Decomp(h hash.Hash, idx string, ops []string, p *c16Pool) string {
 			outs = append(outs, "bad-op")
 		}
 	}
-	if idx == "x" {
+	if !proofTree {
 		r, rf := t.Root(), flatT.Root()
 		outs = append(outs, c16RootHex(r), boolStr(bytes.Equal(r, rf) && (r == nil) == (rf == nil)))
 	} else {
 		a, b := c16Prove(h, t, p), c16Prove(h, flatT, nil)
 		outs = append(outs, a, boolStr(a == b))
+	}
+	return join(outs)
+}
+
+// one VerifyProof verdict per (index, numLeaves) pair, all with the root and proof set Prove returned for (n, i)
+func execC16AccIdx(h hash.Hash, n, i, seed uint64, pairs string, p *c16Pool) string {
+	t := merkletree.New(h)
+	t.SetIndex(i)
+	for j := uint64(0); j < n; j++ {
+		t.Push(p.sub(c16Leaf(seed, j)))
+	}
+	root, ps0, _, _ := t.Prove()
+	root = append([]byte(nil), root...)
+	if len(root) == 0 {
+		root = nil
+	}
+	ps := cloneSet(ps0)
+	if ps0 == nil {
+		ps = nil
+	}
+	var outs []string
+	for _, pr := range strings.Split(pairs, ",") {
+		jm := strings.Split(pr, ":")
+		if len(jm) != 2 {
+			return "bad-op"
+		}
+		outs = append(outs, boolStr(merkletree.VerifyProof(h, p.sub(root), p.set(ps), c16U(jm[0]), c16U(jm[1]))))
 	}
 	return join(outs)
 }
@@ -551,6 +630,41 @@ func execC16Vx(n int, i int, pat string, seed uint64, kind string, a int, mode i
 	return "ok " + boolStr(pf.Verify(idx, leaf, root) == nil)
 }
 
+// the leaf, proof and root of position p presented at every index of the list
+func execC16VxIdx(n, p int, pat string, seed uint64, list string, mode int) string {
+	if n <= 0 {
+		return "bad-op"
+	}
+	orig := make([]vortex.Hash, n)
+	for j := range orig {
+		orig[j] = vxHashOf(seed, vxLeafID(pat, j))
+	}
+	mt, _, bad := vxBuildIn(orig, seed, mode)
+	if bad != "" {
+		return bad
+	}
+	proof, err := mt.Open(p)
+	if err != nil {
+		return "err:range"
+	}
+	var leaf vortex.Hash
+	if p >= 0 && p < len(mt.Levels[len(mt.Levels)-1]) {
+		leaf = mt.Levels[len(mt.Levels)-1][p]
+	}
+	root := mt.Root()
+	outs := []string{"ok"}
+	for _, x := range strings.Split(list, ",") {
+		pf := append(make(vortex.MerkleProof, 0, len(proof)+mode), proof...)
+		outs = append(outs, boolStr(pf.Verify(c16I(x), leaf, root) == nil))
+		for k := range pf {
+			if pf[k] != proof[k] {
+				return "wrote-caller-memory:proof"
+			}
+		}
+	}
+	return join(outs)
+}
+
 func execC16(a []string) string {
 	if len(a) < 2 {
 		return "bad-op"
@@ -575,7 +689,10 @@ func execC16(a []string) string {
 			return "bad-op"
 		}
 		n, seed := c16U(a[2]), c16U(a[3])
-		p := &c16Pool{mode: 1 + c16Mode(a)%3} // ReaderRoot over fixed segments is not applicable (variable leaf sizes): plain pushes
+		p := &c16Pool{mode: c16Mode(a)} // ReaderRoot over fixed segments is not applicable (variable leaf sizes): plain pushes
+		if p.mode == 0 {
+			p.mode = 4
+		}
 		t := merkletree.New(h)
 		for j := uint64(0); j < n; j++ {
 			t.Push(p.sub(c16Leaf(seed, j)))
@@ -596,6 +713,15 @@ func execC16(a []string) string {
 		}
 		p := &c16Pool{mode: c16Mode(a)}
 		return p.done(execC16Decomp(h, a[2], a[3:], p))
+	case a[0] == "accti" && len(a) == 6:
+		h := c16Hash(a[1])
+		if h == nil {
+			return "bad-op"
+		}
+		p := &c16Pool{mode: c16Mode(a)}
+		return p.done(execC16AccIdx(h, c16U(a[2]), c16U(a[3]), c16U(a[4]), a[5], p))
+	case a[0] == "vxi" && len(a) == 6:
+		return execC16VxIdx(int(c16U(a[1])), c16I(a[2]), a[3], c16U(a[4]), a[5], 1+c16Mode(a)%3)
 	case a[0] == "vx" && len(a) == 7:
 		return execC16Vx(int(c16U(a[1])), c16I(a[2]), a[3], c16U(a[4]), a[5], c16I(a[6]), 1+c16Mode(a)%3)
 	}
@@ -676,6 +802,7 @@ func genC16(g *gen) {
 					}
 				}
 			}
+			g.emit("C16 accti sha256 %x %x %x %s", n, i, seed, c16AccLattice(n, i))
 			kinds := c16AccKinds
 			special := i == 0 || i == n-1 || i == n/2 || i&(i-1) == 0 || i&(i+1) == 0
 			if n > full {
@@ -707,6 +834,7 @@ func genC16(g *gen) {
 			}
 		}
 		// index not reached: nil proof
+		g.emit("C16 accti sha256 %x %x %x %s", n, n, seed, c16AccLattice(n, n))
 		g.emit("C16 acct sha256 %x %x %x none 0", n, n, seed)
 		g.emit("C16 acct sha256 %x %x %x idx 0", n, n+1, seed)
 	}
@@ -738,6 +866,7 @@ func genC16(g *gen) {
 			}
 			for _, i := range idxs {
 				g.emit("C16 vx %x %x %s %x none 0", n, i, pat, seed)
+				g.emit("C16 vxi %x %x %s %x %s", n, i, pat, seed, c16VxLattice(n, depth, i))
 				if i >= n {
 					continue
 				}
@@ -792,16 +921,130 @@ func genC16(g *gen) {
 	g.emit("C16 accd sha256 0 R:0:00")
 }
 
+func c16SInt(j int) string {
+	if j < 0 {
+		return fmt.Sprintf("-%x", uint64(-j)) // (MinInt64: -j wraps to itself, magnitude 2^63)
+	}
+	return fmt.Sprintf("%x", j)
+}
+
+// Vortex index lattice for the leaf / proof of position p in a tree of n leaves (depth d, 2^d padded positions): p itself
+// when it is a committed leaf, then p + k*2^d for positive and negative k (same low bits as p), the boundaries 2^d, 2^d +- 1,
+// 2*2^d, -1, the other powers of two next to the depth, p with one higher bit set (2^31, 2^32, 2^62), and the extremes of
+// int. Positions n <= j < 2^d (padding positions of the same tree) are left to the `vx ... idx` lines (known finding).
+func c16VxLattice(n, d, p int) string {
+	pow := 1 << d
+	const maxI, minI = int(^uint(0) >> 1), -int(^uint(0)>>1) - 1
+	js := []int{p}
+	for _, k := range []int{1, -1, 2, -2, 3, -3, 4, 7, 8, -8} {
+		js = append(js, p+k*pow)
+	}
+	js = append(js, pow, pow+1, pow-1, 2*pow, 2*pow-1, 2*pow+1, 3*pow, -1, -2, -pow, -pow-1, -pow+1, -2*pow, pow/2, pow+pow/2, n, n+pow, 0, 1)
+	for _, e := range []int{d + 1, d + 2, 8, 16, 31, 32, 33, 62} {
+		js = append(js, p+1<<e, p-1<<e, 1<<e, 1<<e-1, -(1 << e))
+	}
+	js = append(js, maxI, maxI-1, maxI-(pow-1)+p, maxI-pow+1+p-pow, minI, minI+1, minI+p, minI+pow, minI+pow+p)
+	seen := map[int]bool{}
+	var out []string
+	for _, j := range js {
+		if seen[j] || (j >= n && j < pow) || (j == p && p >= n) {
+			continue
+		}
+		seen[j] = true
+		out = append(out, c16SInt(j))
+	}
+	return strings.Join(out, ",")
+}
+
+// accumulator (index, numLeaves) lattice for the proof of index i in a tree of n leaves: numLeaves = n with the index at
+// n, n +- 1, 2^k and 2^k +- 1, i with one bit flipped / added, i + k*2^depth, the extremes of uint64; index = i with
+// numLeaves at i, i + 1, n +- 1, 2^k, 2^k +- 1, huge; both moved together (index = numLeaves, numLeaves - 1)
+func c16AccLattice(n, i int) string {
+	d := 0
+	for (1 << d) < n {
+		d++
+	}
+	pow := uint64(1) << d
+	N, I := uint64(n), uint64(i)
+	type pr struct{ j, m uint64 }
+	ps := []pr{{I, N}}
+	idx := []uint64{N, N - 1, N + 1, N + 2, I + 1, I - 1, I + N, I + pow, I + 2*pow, I - pow, 0, 1, 1 << 31, 1 << 32, 1<<32 + I, 1<<63 + I, 1 << 63, ^uint64(0), ^uint64(0) - 1, ^uint64(0) - pow + 1 + I}
+	for k := 0; k <= d+1; k++ {
+		b := uint64(1) << k
+		idx = append(idx, b, b-1, b+1, I^b, I+b, I-b)
+	}
+	for _, j := range idx {
+		ps = append(ps, pr{j, N})
+	}
+	nums := []uint64{I, I + 1, I + 2, N - 1, N + 1, N + 2, 2 * N, 2*N + 1, 0, 1, 1 << 32, 1 << 63, ^uint64(0)}
+	for k := 0; k <= d+1; k++ {
+		b := uint64(1) << k
+		nums = append(nums, b, b-1, b+1, N+b, N-b)
+	}
+	for _, m := range nums {
+		ps = append(ps, pr{I, m})
+	}
+	for _, m := range []uint64{N + 1, N - 1, pow, pow + 1, 2 * pow} {
+		ps = append(ps, pr{m, m}, pr{m - 1, m})
+	}
+	seen := map[pr]bool{}
+	var out []string
+	for _, x := range ps {
+		if seen[x] {
+			continue
+		}
+		seen[x] = true
+		out = append(out, fmt.Sprintf("%x:%x", x.j, x.m))
+	}
+	return strings.Join(out, ",")
+}
+
 // all compositions of n leaves into Push (1), PushSubTree (aligned or not, power-of-two sizes) and ReadAll runs
 func c16GenDecomp(g *gen) {
 	leafHex := func(k int) string { return hexBytes([]byte{byte(k), byte(k * 7), 0x11}) }
 	maxN := g.budget(7, 9)
 	var rec func(n, used int, prefix []string)
+	// observation calls at EVERY point of the history (before the first op, after every op), then one observation alone
+	// after each proper prefix (so that a later answer can only depend on that one earlier observation), doubled and mixed
+	// observations (Root / Prove idempotent, neither disturbs the other)
+	inter := func(ops []string, obs ...string) string {
+		out := append([]string{}, obs...)
+		for _, o := range ops {
+			out = append(append(out, o), obs...)
+		}
+		return join(out)
+	}
+	single := func(ops []string, j int, obs ...string) string {
+		out := append([]string{}, ops[:j]...)
+		out = append(out, obs...)
+		return join(append(out, ops[j:]...))
+	}
 	emitAll := func(n int, ops []string) {
 		g.emit("C16 accd sha256 x %s", join(ops))
+		g.emit("C16 accd sha256 x %s", inter(ops, "Or"))
+		for j := 1; j < len(ops); j++ {
+			if n <= 5 || g.rng.intn(4) == 0 {
+				g.emit("C16 accd sha256 x %s", single(ops, j, "Or"))
+			}
+		}
+		if g.rng.intn(4) == 0 {
+			g.emit("C16 accd sha256 x %s", inter(ops, "Or", "Or"))
+		}
 		for i := 0; i <= n; i++ {
 			if n <= 5 || i == 0 || i == n-1 || g.rng.intn(3) == 0 {
 				g.emit("C16 accd sha256 %x %s", i, join(ops))
+				g.emit("C16 accd sha256 %x %s", i, inter(ops, "Op"))
+				switch g.rng.intn(4) {
+				case 0:
+					g.emit("C16 accd sha256 %x %s", i, inter(ops, "Or"))
+				case 1:
+					g.emit("C16 accd sha256 %x %s", i, inter(ops, "Op", "Or", "Op"))
+				}
+				for j := 1; j < len(ops); j++ {
+					if n <= 4 || g.rng.intn(6) == 0 {
+						g.emit("C16 accd sha256 %x %s", i, single(ops, j, []string{"Op", "Or"}[g.rng.intn(2)]))
+					}
+				}
 			}
 		}
 	}
@@ -882,5 +1125,107 @@ func c16GenDecomp(g *gen) {
 			idx = fmt.Sprintf("%x", g.rng.intn(cnt+2))
 		}
 		g.emit("C16 accd sha256 %s %s", idx, join(ops))
+		// the same history with observations at every point / at random points
+		obs := "Op"
+		if idx == "x" {
+			obs = "Or"
+		}
+		g.emit("C16 accd sha256 %s %s", idx, inter(ops, obs))
+		var sp []string
+		for _, o := range ops {
+			sp = append(sp, o)
+			switch g.rng.intn(4) {
+			case 0:
+				sp = append(sp, obs)
+			case 1:
+				sp = append(sp, "Or")
+			}
+		}
+		g.emit("C16 accd sha256 %s %s", idx, join(sp))
+	}
+	// SetIndex in the history: before the first leaf (the last one wins), after leaves (refused, state unchanged), on a
+	// tree that was observed while empty; small trees exhaustively over (index, second index, position of the late SetIndex)
+	for n := 1; n <= 4; n++ {
+		var ps []string
+		for k := 0; k < n; k++ {
+			ps = append(ps, "P:"+leafHex(k))
+		}
+		for a := 0; a <= n; a++ {
+			for b := 0; b <= n; b++ {
+				g.emit("C16 accd sha256 x Or I:%x Op Or I:%x Op %s", a, b, inter(ps, "Op"))
+				g.emit("C16 accd sha256 %x I:%x %s", a, b, inter(ps, "Op"))
+				for j := 1; j <= n; j++ {
+					g.emit("C16 accd sha256 %x %s", a, single(ps, j, fmt.Sprintf("I:%x", b), "Op"))
+					g.emit("C16 accd sha256 x %s", single(ps, j, "Or", fmt.Sprintf("I:%x", b), "Or"))
+				}
+			}
+		}
+		g.emit("C16 accd sha256 x %s", inter(ps, "Op")) // Prove without SetIndex: not a history of the property (bad-op)
+	}
+	// valid histories of larger trees: Push / aligned PushSubTree of 2^h leaves (h <= 5) not containing the proof index /
+	// ReadAll, up to ~140 leaves, observed at every point and at random points
+	for it := 0; it < g.budget(120, 1200); it++ {
+		total := 1 + g.rng.intn(140)
+		if it%4 == 0 {
+			total = 1 + g.rng.intn(12)
+		}
+		pi := g.rng.intn(total + 1)
+		proof := g.rng.intn(4) != 0
+		var ops []string
+		c := 0
+		for c < total {
+			maxh := 0
+			for maxh < 5 && c%(2<<maxh) == 0 && c+(2<<maxh) <= total {
+				maxh++
+			}
+			switch r := g.rng.intn(10); {
+			case r < 5 && c+1<<maxh <= total:
+				h := maxh
+				if g.rng.intn(3) == 0 {
+					h = g.rng.intn(maxh + 1)
+				}
+				if proof && pi >= c && pi < c+1<<h {
+					ops = append(ops, "P:"+leafHex(c))
+					c++
+					continue
+				}
+				var ls []string
+				for k := 0; k < 1<<h; k++ {
+					ls = append(ls, leafHex(c+k))
+				}
+				ops = append(ops, fmt.Sprintf("S:%x:%s", h, strings.Join(ls, ",")))
+				c += 1 << h
+			case r == 5 && c+2 <= total:
+				m := 2 + g.rng.intn(3)
+				if c+m > total {
+					m = total - c
+				}
+				var b []byte
+				for k := 0; k < m; k++ {
+					b = append(b, byte(c+k), byte((c+k)*7), 0x11)
+				}
+				ops = append(ops, "R:3:"+hexBytes(b))
+				c += m
+			default:
+				ops = append(ops, "P:"+leafHex(c))
+				c++
+			}
+		}
+		idx, obs := "x", "Or"
+		if proof {
+			idx, obs = fmt.Sprintf("%x", pi), "Op"
+		}
+		g.emit("C16 accd sha256 %s %s", idx, join(ops))
+		g.emit("C16 accd sha256 %s %s", idx, inter(ops, obs))
+		for rep := 0; rep < 2; rep++ {
+			var sp []string
+			for _, o := range ops {
+				sp = append(sp, o)
+				if g.rng.intn(5) == 0 || (rep == 1 && strings.HasPrefix(o, "S:") && g.rng.coin()) {
+					sp = append(sp, []string{obs, "Or"}[g.rng.intn(2)])
+				}
+			}
+			g.emit("C16 accd sha256 %s %s", idx, join(sp))
+		}
 	}
 }
